@@ -126,10 +126,42 @@ func run(input string) string {
 	f := strings.Fields(input)
 	p := h.UnHex(f[1])
 	a := h.UnHex(f[2])
+	p0 := append([]byte(nil), p...)
+	a0 := append([]byte(nil), a...)
 	c, regs, mem, ex := PVM.SingleInitializer(p, a)
 	if ex != PVM.ExitContinue {
 		return "rej"
 	}
+	c = append([]byte(nil), c...)
+	// independence of the result from the caller's buffers (aliasing): dump, then scribble over the inputs and
+	// dump again; then scribble over every page and look at the inputs
+	first := dump(c, regs, &mem)
+	for i := range p {
+		p[i] ^= 0x5A
+	}
+	for i := range a {
+		a[i] ^= 0x5A
+	}
+	alias := "ok"
+	if dump(c, regs, &mem) != first {
+		alias = "pages-follow-caller-buffers"
+	}
+	copy(p, p0)
+	copy(a, a0)
+	_, _, vals := PVM.VerifPages(&mem)
+	for _, v := range vals {
+		for i := range v {
+			v[i] ^= 0xA5
+		}
+	}
+	if string(p) != string(p0) || string(a) != string(a0) {
+		alias = "caller-buffers-follow-pages"
+	}
+	return first + " alias=" + alias
+}
+
+func dump(c []byte, regs PVM.Registers, memp *PVM.Memory) string {
+	mem := *memp
 	var sb strings.Builder
 	sb.WriteString("ok c=" + h.Hex(c) + " regs=")
 	for i, r := range regs {
@@ -139,7 +171,8 @@ func run(input string) string {
 		fmt.Fprintf(&sb, "%d", r)
 	}
 	sb.WriteString(" pages=")
-	nums, acc, vals := PVM.VerifPages(&mem)
+	nums, acc, vals := PVM.VerifPages(memp)
+	_ = mem
 	for i, n := range nums {
 		if len(vals[i]) != 4096 {
 			fmt.Fprintf(&sb, "%d:%d:BADLEN%d;", n, acc[i], len(vals[i]))
